@@ -121,7 +121,14 @@ func (e *Engine) VerifyFunc(key string) {
 		fx.onRead(st, val, fi.Decl)
 		fx.bindVar(st, v, val)
 	}
-	// method receivers are non-nil only if the contract says so; nothing assumed here
+	// methods with pointer receivers require a non-nil receiver (asserted at every call site) unless `nilrecv`
+	if e.implicitRecvNonNil(fi, fx.con) && fi.Decl.Recv != nil {
+		if rv := fx.declVars(fi.Decl.Recv); len(rv) == 1 && rv[0] != nil {
+			if b := bind[rv[0].Name()]; b != nil && b.Tm != nil {
+				st.assume(ts.Ne(b.Tm, ts.Int(0)))
+			}
+		}
+	}
 	// ghost variables
 	if fx.con != nil {
 		for _, gv := range fx.con.GhostVars {
@@ -293,6 +300,14 @@ func (fx *fctx) runHooks(st *State, where string, n int, callee string, node ast
 		}
 		if where == "loopexit" {
 			pos = node.End()
+		}
+		if where == "loopend" {
+			switch l := node.(type) {
+			case *ast.ForStmt:
+				pos = l.Body.Rbrace
+			case *ast.RangeStmt:
+				pos = l.Body.Rbrace
+			}
 		}
 		b := fx.visibleBindings(st, pos)
 		for i, r := range rets {
